@@ -26,3 +26,4 @@ def run(ctx):
     ctx.children(b, 1, run='TestC06Generics', timeout=300)
     ctx.children(b, 1, run='TestC06SameName', timeout=300)
     ctx.children(b, 1, run='TestC06Retarget', timeout=300)
+    ctx.children(b, 1, run='TestC06CallSites', timeout=300)
